@@ -47,8 +47,9 @@ class C20(Spec):
                 for s in docs.g1_shards(1):
                     out.append(self.job("ext", dict(s, subset=S)))
                 if len(S) in (1, 5, 6):
-                    for s in docs.g2_shards(pool, replace=True):
-                        out.append(self.job("ext", dict(s, subset=S), budget=300.0))
+                    for i, s in enumerate(docs.g2_shards(pool, replace=True)):
+                        if i % 3 == 0:
+                            out.append(self.job("ext", dict(s, subset=S), budget=300.0))
             for s in docs.g1_shards(2):
                 out.append(self.job("ext", dict(s, subset=EXT), budget=300.0))
             blocks, rests = ["---\nt: 1\n---\n", "---\na: b\nc: d\n---\n"], docs.load_pool("mini")
